@@ -109,7 +109,11 @@ def gen_history(rng):
             if kind in ("onset", "duration") and i > 0 and rng.random() < 0.25:
                 j = rng.randrange(0, i)
                 d = times[i] - times[j]
-                tp_rows[j][0].append("(" + f"Delay/{fmt(d)} s, " + text + ")")
+                # the Delay tag may stand anywhere among the members of the group
+                first, _, rest = text.partition(", ")
+                tp_rows[j][0].append(rng.choice(["(" + f"Delay/{fmt(d)} s, " + text + ")",
+                                                 "(" + first + f", Delay/{fmt(d)} s, " + rest + ")",
+                                                 "(" + text + f", Delay/{fmt(d)} s)"]))
             else:
                 if rng.random() < 0.2 and len(tp_rows[i]) < 2:
                     tp_rows[i].append([])
